@@ -16,7 +16,7 @@ extremes, agreement with the Kepler motion of the mean elements.
 -/
 noncomputable section
 namespace Pymeeus.C07
-open Pymeeus Pymeeus.PR Pymeeus.GenR Pymeeus.Refine.Vsop Pymeeus.Tables
+open Pymeeus Pymeeus.PR Pymeeus.GenR Pymeeus.GenR.Helio Pymeeus.Refine.Vsop Pymeeus.Tables
 
 /-! ## The evaluator -/
 
